@@ -39,5 +39,23 @@ func unwrapJSONNumber(input any) any {
 		return val.String()
 	}
 
+	if list, ok := input.([]any); ok {
+		unwrapped := make([]any, 0, len(list))
+		for _, item := range list {
+			unwrapped = append(unwrapped, unwrapJSONNumber(item))
+		}
+
+		return unwrapped
+	}
+
+	if object, ok := input.(map[string]any); ok {
+		unwrapped := make(map[string]any, len(object))
+		for key, item := range object {
+			unwrapped[key] = unwrapJSONNumber(item)
+		}
+
+		return unwrapped
+	}
+
 	return input
 }
